@@ -442,16 +442,36 @@ func TestC14_LargeValid(t *testing.T) {
 	r := ev.New(t, "C14", "TestC14_LargeValid")
 	defer r.Flush()
 	for li, leaf := range schemaLeaves() {
-		if leaf.Kind != "list" || li%ev.NShards() != ev.Shard() {
+		if li%ev.NShards() != ev.Shard() {
 			continue
 		}
 		p := gen.ParseTag(leaf.Tag)
 		lb, ub, has := sbounds(p)
-		if !has {
+		var sizes []int64
+		cutsAt := []int{0, 1}
+		switch leaf.Kind {
+		case "list":
+			if !has {
+				continue
+			}
+			sizes = []int64{1025, 2049, 4097}
+		case "bitstring":
+			// strings whose length needs the fragmented form (16K and more): complete 16K fragments, a remainder,
+			// and the message cut exactly behind a complete fragment (where the next length — possibly the closing
+			// zero — is due)
+			sizes = []int64{16384, 16385, 16424, 28729, 32768}
+			cutsAt = []int{0, 1, -2049, -2050}
+		case "octetstring", "string":
+			sizes = []int64{16384, 16385, 20000}
+			cutsAt = []int{0, 1, -16385, -16386}
+		default:
 			continue
 		}
-		for _, n := range []int64{1025, 2049, 4097} {
-			if n < lb || n > ub {
+		for _, n := range sizes {
+			if has && !p.SizeExt && (n < lb || n > ub) {
+				continue
+			}
+			if !has && leaf.Kind == "list" {
 				continue
 			}
 			leaf, n := leaf, n
@@ -460,16 +480,23 @@ func TestC14_LargeValid(t *testing.T) {
 			if err != nil || len(rb) >= 1<<20 {
 				continue
 			}
-			for _, cut := range []int{0, 1} {
-				in := append([]byte{}, rb[:len(rb)-cut]...)
-				c := c14Case{Kind: fmt.Sprintf("large-valid-list(%d elements, %d octets cut)", n, cut), Entry: leaf.Type + " " + leaf.Tag, Hex: hex.EncodeToString(trunc(in, 64))}
+			for _, cut := range cutsAt {
+				keep := len(rb) - cut
+				if cut < 0 {
+					keep = -cut // an absolute position: right behind the first complete fragment
+				}
+				if keep < 1 || keep > len(rb) {
+					continue
+				}
+				in := append([]byte{}, rb[:keep]...)
+				c := c14Case{Kind: fmt.Sprintf("large-valid-%s(size %d, first %d of %d octets)", leaf.Kind, n, keep, len(rb)), Entry: leaf.Type + " " + leaf.Tag, Hex: hex.EncodeToString(trunc(in, 64))}
 				v := ev.Verdict{NT: true, Hash: ev.HashBytes(in), Classes: []string{"large-valid-list"}}
 				out := reflect.New(leaf.t)
 				stop := r.Watchdog(c, "aper.UnmarshalWithParams", 4*c14TimeLimit)
 				derr, site := ev.Guard(func() error { return aper.UnmarshalWithParams(in, out.Interface(), leaf.Tag) })
 				stop()
 				if site != "" {
-					v.Key, v.Err = "dec:panic:"+site, fmt.Errorf("decoding a %s of %d elements (%d octets, last %d cut off) panicked: %v", leaf.Type, n, len(in), cut, derr)
+					v.Key, v.Err = "dec:panic:"+site, fmt.Errorf("decoding a %s of size %d (the first %d of %d octets of its canonical encoding) panicked: %v", leaf.Type, n, len(in), len(rb), derr)
 				} else if cut == 0 && derr != nil {
 					v.Classes = append(v.Classes, "large-valid-list:refused(C04's business)")
 				}
